@@ -119,7 +119,13 @@ def generate(rng, tier, rep):
     for i in range(m):
         how = ['exit0', 'exit3', 'kill', 'segv'][i % 4]
         where = ['import', 'setUp', 'body', 'tearDown', 'none', 'spawn'][(i // 4) % 6]
-        cases.append({'kind': 'real', 'how': how, 'where': where, 'ntests': 1 + i % 3, 'bad': i % 2})
+        c = {'kind': 'real', 'how': how, 'where': where, 'ntests': 1 + i % 3, 'bad': i % 2}
+        if where == 'spawn' and i % 2 == 1:
+            c['where'] = 'spawn_nul'       # not startable for another reason than the OS refusing: an argument with a NUL in it
+        if where == 'none':
+            # a parent process in an unusual but legal state: the child must be started and read as ever
+            c['odd'] = [['syspath_pathobj'], ['environ_nonascii'], ['syspath_pathobj', 'environ_nonascii'], []][i % 4]
+        cases.append(c)
     # real children that finish normally and report the same failing name more than once (--repeat)
     for i in range({'quick': 3, 'thorough': 12, 'search': 0}[tier]):
         cases.append({'kind': 'real', 'how': 'exit0', 'where': 'none', 'ntests': 1 + i % 3, 'bad': 1, 'repeat': 2 + i % 2})
@@ -160,6 +166,10 @@ def world_of(c):
         w['tests'][-1]['body'] = ['die', c['how']]
     elif c['where'] == 'spawn':
         w['child_cwd'] = '/nonexistent/verif/dir'
+    elif c['where'] == 'spawn_nul':
+        layer['name'] = 'La\x00z'
+    if c.get('odd'):
+        w['odd'] = c['odd']
     return w
 
 
@@ -222,7 +232,7 @@ def to_coq(c, o):
         spawned = True
     else:
         sb = bytes.fromhex(o['tee'] or '')
-        truth, intact, spawned = 'None', False, c['where'] != 'spawn'
+        truth, intact, spawned = 'None', False, c['where'] not in ('spawn', 'spawn_nul')
         if c['where'] == 'none':
             # the child ran to completion: the truth is what its tests are called (line breaks become blanks) and did
             w = world_of(c)
